@@ -405,7 +405,11 @@ func init() {
 	reg([]string{pSdk + "Uint64ToBigEndian"}, func(x *Exec, s *State, r *Value, a []*Value, c *ast.CallExpr) []*Value {
 		return []*Value{{K: KBytes, Typ: x.resType(c, 0), B: &Bytes{Kind: "u64be", T: a[0].T}}}
 	})
-	reg([]string{pSdk + "BigEndianToUint64"}, func(x *Exec, s *State, r *Value, a []*Value, c *ast.CallExpr) []*Value {
+	builtins["(encoding/binary.bigEndian).PutUint64"] = func(x *Exec, s *State, r *Value, a []*Value, c *ast.CallExpr) []*Value {
+		x.assignTo(s, c.Args[0], &Value{K: KBytes, Typ: a[0].Typ, B: &Bytes{Kind: "u64be", T: a[1].T}})
+		return nil
+	}
+	reg([]string{pSdk + "BigEndianToUint64", "(encoding/binary.bigEndian).Uint64"}, func(x *Exec, s *State, r *Value, a []*Value, c *ast.CallExpr) []*Value {
 		b := a[0].B
 		switch b.Kind {
 		case "u64be":
